@@ -9,6 +9,8 @@ import GrmVerif.Drive.C20
 import GrmVerif.Drive.C18
 import GrmVerif.Drive.C15
 import GrmVerif.Drive.C10
+import GrmVerif.Drive.C13
+import GrmVerif.Drive.C14
 /-! `gvdriver`: one request per line `<prop> <case-id> <nat>…`; replies are prefixed with the case id. -/
 open GrmVerif.Drive
 
@@ -27,6 +29,8 @@ def dispatch (prop : String) (args : List Nat) : String :=
   | "C18" => C18.handle args
   | "C15" => C15.handle args
   | "C10" => C10.handle args
+  | "C13" => C13.handle args
+  | "C14" => C14.handle args
   | _ => "bad-prop"
 
 def prefixLines (id : String) (s : String) : String :=
